@@ -4,6 +4,7 @@ import (
 	"fmt"
 	"go/token"
 	"go/types"
+	"os"
 	"sort"
 	"strconv"
 	"strings"
@@ -52,6 +53,10 @@ func isAttrNameLocal(v ssa.Value) (ssa.Value, bool) {
 	}
 	if typeIs(base.Type(), xmlPkg, "Attr") {
 		return base, true
+	}
+	// attr := &attrs[i]: the selections start at an element address; the access-path root is the slice
+	if b2 := baseBefore(v, 2); b2 != nil && typeIs(b2.Type(), xmlPkg, "Attr") {
+		return b2, true
 	}
 	return nil, false
 }
@@ -119,6 +124,18 @@ func buildReaderModel(p *Program) *readerModel {
 		}
 		allInstrs(f, func(in ssa.Instruction) {
 			switch x := in.(type) {
+			case ssa.CallInstruction:
+				// a generic reader helper constructs values of its type arguments (new(E), var v E)
+				if cal := staticCallee(x); cal != nil && m.IsReader[cal] {
+					for _, ta := range typeArgsOfCall(x) {
+						if n, st := structOf(ta); n != nil && st != nil {
+							m.Allocs[n] = true
+							if _, ok := m.allocSite[n]; !ok {
+								m.allocSite[n] = x.Pos()
+							}
+						}
+					}
+				}
 			case *ssa.Alloc:
 				if n, st := structOf(x.Type()); n != nil && st != nil {
 					if _, isArr := derefType(x.Type()).Underlying().(*types.Array); !isArr {
@@ -385,6 +402,63 @@ func ruleSchema(r *Run) {
 		}
 	}
 
+	// A reader helper may hand the child back instead of storing it (`align, offset, err :=
+	// d.parsePosition(decoder, ...)`; the caller stores the results into the parent it builds).  The
+	// field is then covered under the element name in whose region of the *helper* the returned
+	// value is produced.
+	for _, f := range m.Funcs {
+		for _, s := range m.Stores[f] {
+			if !s.Direct || s.Val == nil {
+				continue
+			}
+			for _, o := range returnedOrigins(m, s.Val, 0) {
+				for _, c := range m.ElemCmps[o.fn] {
+					if c.Region[o.blk] {
+						if elemCov[s.Field] == nil {
+							elemCov[s.Field] = map[string]cov{}
+						}
+						if _, ok := elemCov[s.Field][c.Const]; !ok {
+							elemCov[s.Field][c.Const] = cov{o.fn, o.pos}
+						}
+					}
+				}
+			}
+		}
+	}
+
+	// A reader may be table driven: a map from child element names to the addresses of the fields
+	// of the struct under construction (slots := map[string]**T{"top": &b.Top, ...}), handed to a
+	// driver that looks the start tag's local name up in it and stores through the slot it finds.
+	for _, f := range m.Funcs {
+		allInstrs(f, func(in ssa.Instruction) {
+			mu, ok := in.(*ssa.MapUpdate)
+			if !ok {
+				return
+			}
+			key, isC := constString(mu.Key)
+			if !isC {
+				return
+			}
+			ch, _ := addrChain(mu.Value)
+			if len(ch) == 0 || ch[len(ch)-1] == nil {
+				return
+			}
+			if _, isAddr := mu.Value.(*ssa.FieldAddr); !isAddr {
+				return
+			}
+			if !dispatchedByElementName(m, f, mu.Map, 0) {
+				return
+			}
+			fv := ch[len(ch)-1]
+			if elemCov[fv] == nil {
+				elemCov[fv] = map[string]cov{}
+			}
+			if _, ok := elemCov[fv][key]; !ok {
+				elemCov[fv][key] = cov{f, mu.Pos()}
+			}
+		})
+	}
+
 	// attribute stores: trace stored values to attribute lookups
 	type attrSrc struct {
 		name string
@@ -570,6 +644,35 @@ func attrNamesFrom(m *readerModel, f *ssa.Function, val ssa.Value, blk *ssa.Basi
 			}
 		}
 	}
+	// viaHelperField: field `field` of the struct a module helper (given the attribute list) returns
+	viaHelperField := func(c *ssa.Call, field int) {
+		cal := staticCallee(c)
+		if cal == nil || hops > 2 || len(cal.Blocks) == 0 || cal.Pkg == nil || !strings.HasPrefix(cal.Pkg.Pkg.Path(), modPath) {
+			return
+		}
+		for _, b := range cal.Blocks {
+			for _, in := range b.Instrs {
+				ret, ok := in.(*ssa.Return)
+				if !ok || len(ret.Results) == 0 {
+					continue
+				}
+				// return T{...}: a composite literal built in a local and loaded
+				if ld, ok := ret.Results[0].(*ssa.UnOp); ok && ld.Op == token.MUL {
+					if al, ok := ld.X.(*ssa.Alloc); ok && al.Referrers() != nil {
+						for _, u := range *al.Referrers() {
+							if fa, ok := u.(*ssa.FieldAddr); ok && fa.Field == field && fa.Referrers() != nil {
+								for _, u2 := range *fa.Referrers() {
+									if st, ok := u2.(*ssa.Store); ok && st.Addr == fa {
+										names = append(names, attrNamesFrom(m, cal, st.Val, st.Block(), hops+1)...)
+									}
+								}
+							}
+						}
+					}
+				}
+			}
+		}
+	}
 	var walk func(v ssa.Value, depth int)
 	walk = func(v ssa.Value, depth int) {
 		if v == nil || seen[v] || depth > 8 {
@@ -605,8 +708,19 @@ func attrNamesFrom(m *readerModel, f *ssa.Function, val ssa.Value, blk *ssa.Basi
 			// attr.Value inside the region of attr.Name.Local == C
 			if fv, base := fieldOfVal(x); fv != nil && fv.Name() == "Value" && typeIs(base.Type(), xmlPkg, "Attr") {
 				for _, c := range m.AttrCmps[f] {
-					if ab, ok := isAttrNameLocal(c.Operand); ok && sameBase(ab, base) && c.Region[s.Block] {
+					if ab, ok := isAttrNameLocal(c.Operand); ok && sameBase(ab, base) && (c.Region[s.Block] || c.Region[x.Block()]) {
 						names = append(names, c.Const)
+					}
+				}
+			}
+			// a field of a struct of looked-up values handed back by a helper (a := readAttrs(t.Attr); a.val)
+			if c, ok := x.X.(*ssa.Call); ok {
+				viaHelperField(c, x.Field)
+			}
+			if ld, ok := x.X.(*ssa.UnOp); ok && ld.Op == token.MUL {
+				if al, ok := ld.X.(*ssa.Alloc); ok {
+					for _, c := range wholeStoresOfCalls(al) {
+						viaHelperField(c, x.Field)
 					}
 				}
 			}
@@ -616,9 +730,15 @@ func attrNamesFrom(m *readerModel, f *ssa.Function, val ssa.Value, blk *ssa.Basi
 				if fa, ok := x.X.(*ssa.FieldAddr); ok {
 					if fv, base := fieldOfAddr(fa); fv != nil && fv.Name() == "Value" && typeIs(base.Type(), xmlPkg, "Attr") {
 						for _, c := range m.AttrCmps[f] {
-							if ab, ok := isAttrNameLocal(c.Operand); ok && sameBase(ab, base) && c.Region[s.Block] {
+							if ab, ok := isAttrNameLocal(c.Operand); ok && sameBase(ab, base) && (c.Region[s.Block] || c.Region[x.Block()]) {
 								names = append(names, c.Const)
 							}
+						}
+					}
+					// a.val where the local struct a holds a helper's result
+					if al, ok := fa.X.(*ssa.Alloc); ok {
+						for _, c := range wholeStoresOfCalls(al) {
+							viaHelperField(c, fa.Field)
 						}
 					}
 				}
@@ -635,6 +755,9 @@ func attrNamesFrom(m *readerModel, f *ssa.Function, val ssa.Value, blk *ssa.Basi
 		}
 	}
 	walk(s.Val, 0)
+	if os.Getenv("WZ_DEBUG_ATTR") != "" {
+		fmt.Fprintf(os.Stderr, "attrNamesFrom %s val=%v (%T) hops=%d -> %v (attrcmps=%d)\n", f.Name(), val, val, hops, names, len(m.AttrCmps[f]))
+	}
 	return names
 }
 
@@ -737,4 +860,183 @@ func ruleMarshalCover(r *Run) {
 		}
 	}
 	r.Min("custom_marshalers", n, 5)
+}
+
+// retOrigin: where (function, block) a value returned by a reader helper is produced.
+type retOrigin struct {
+	fn  *ssa.Function
+	blk *ssa.BasicBlock
+	pos token.Pos
+}
+
+// returnedOrigins follows v back to results of calls to reader functions and, inside those, from
+// the return statements through phis and local variables to the instructions that produce the
+// returned value (allocations, further reader calls).  Depth-limited; nil constants are skipped.
+func returnedOrigins(m *readerModel, v ssa.Value, hops int) []retOrigin {
+	var out []retOrigin
+	if hops > 3 {
+		return out
+	}
+	seen := map[ssa.Value]bool{}
+	fromCall := func(c *ssa.Call, idx int) {
+		out = append(out, returnedOriginsOfCall(m, c, idx, hops)...)
+	}
+	var walk func(v ssa.Value, depth int)
+	walk = func(v ssa.Value, depth int) {
+		if v == nil || seen[v] || depth > 8 {
+			return
+		}
+		seen[v] = true
+		switch x := v.(type) {
+		case *ssa.Extract:
+			if c, ok := x.Tuple.(*ssa.Call); ok {
+				fromCall(c, x.Index)
+			}
+		case *ssa.Call:
+			fromCall(x, 0)
+		case *ssa.Phi:
+			for _, e := range x.Edges {
+				walk(e, depth+1)
+			}
+		case *ssa.UnOp:
+			if x.Op == token.MUL {
+				if al, ok := x.X.(*ssa.Alloc); ok {
+					if refs := al.Referrers(); refs != nil {
+						for _, in := range *refs {
+							if st, ok := in.(*ssa.Store); ok && st.Addr == al {
+								walk(st.Val, depth+1)
+							}
+						}
+					}
+				}
+			}
+		}
+	}
+	walk(v, 0)
+	return out
+}
+
+func returnedOriginsOfCall(m *readerModel, c *ssa.Call, idx int, hops int) []retOrigin {
+	if hops > 3 {
+		return nil
+	}
+	g := staticCallee(c)
+	if g == nil || !m.IsReader[g] || len(g.Blocks) == 0 {
+		return nil
+	}
+	var out []retOrigin
+	for _, b := range g.Blocks {
+		for _, in := range b.Instrs {
+			if ret, ok := in.(*ssa.Return); ok && idx < len(ret.Results) {
+				// re-enter through a synthetic walk: wrap the returned value
+				out = append(out, originsInside(m, g, ret.Results[idx], hops)...)
+			}
+		}
+	}
+	return out
+}
+
+func originsInside(m *readerModel, g *ssa.Function, v ssa.Value, hops int) []retOrigin {
+	var out []retOrigin
+	seen := map[ssa.Value]bool{}
+	var rec func(v ssa.Value, depth int)
+	rec = func(v ssa.Value, depth int) {
+		if v == nil || seen[v] || depth > 10 || isNilConst(v) {
+			return
+		}
+		seen[v] = true
+		switch x := v.(type) {
+		case *ssa.Phi:
+			for _, e := range x.Edges {
+				rec(e, depth+1)
+			}
+		case *ssa.Alloc:
+			if x.Heap {
+				out = append(out, retOrigin{g, x.Block(), x.Pos()})
+			}
+		case *ssa.Extract:
+			out = append(out, retOrigin{g, x.Block(), x.Pos()})
+			if c, ok := x.Tuple.(*ssa.Call); ok {
+				out = append(out, returnedOriginsOfCall(m, c, x.Index, hops+1)...)
+			}
+		case *ssa.Call:
+			out = append(out, retOrigin{g, x.Block(), x.Pos()})
+			out = append(out, returnedOriginsOfCall(m, x, 0, hops+1)...)
+		}
+	}
+	rec(v, 0)
+	return out
+}
+
+// wholeStoresOfCalls: the calls whose (struct) result is stored as a whole into the local al.
+func wholeStoresOfCalls(al *ssa.Alloc) []*ssa.Call {
+	var out []*ssa.Call
+	if refs := al.Referrers(); refs != nil {
+		for _, u := range *refs {
+			if st, ok := u.(*ssa.Store); ok && st.Addr == al {
+				if c, ok := st.Val.(*ssa.Call); ok {
+					out = append(out, c)
+				}
+			}
+		}
+	}
+	return out
+}
+
+// dispatchedByElementName: the map value mp (in f) is looked up with a start tag's local name and
+// the slot found is stored through — in f itself or in a reader function mp is passed to.
+func dispatchedByElementName(m *readerModel, f *ssa.Function, mp ssa.Value, hops int) bool {
+	if hops > 2 || mp == nil {
+		return false
+	}
+	found := false
+	refs := mp.Referrers()
+	if refs == nil {
+		return false
+	}
+	for _, u := range *refs {
+		switch x := u.(type) {
+		case *ssa.Lookup:
+			if x.X != mp || !isStartElemNameLocal(x.Index) {
+				continue
+			}
+			// the slot (or the slot extracted from the comma-ok pair) must be stored through
+			var slots []ssa.Value
+			slots = append(slots, x)
+			if x.Referrers() != nil {
+				for _, u2 := range *x.Referrers() {
+					if ex, ok := u2.(*ssa.Extract); ok && ex.Index == 0 {
+						slots = append(slots, ex)
+					}
+				}
+			}
+			for _, sl := range slots {
+				if sl.Referrers() == nil {
+					continue
+				}
+				for _, u3 := range *sl.Referrers() {
+					if st, ok := u3.(*ssa.Store); ok && st.Addr == sl {
+						found = true
+					}
+				}
+			}
+		case ssa.CallInstruction:
+			cal := staticCallee(x)
+			if cal == nil || !m.IsReader[cal] {
+				continue
+			}
+			for i, a := range x.Common().Args {
+				if a == mp && i < len(cal.Params) {
+					if dispatchedByElementName(m, cal, cal.Params[i], hops+1) {
+						found = true
+					}
+				}
+			}
+		case *ssa.ChangeType:
+			if dispatchedByElementName(m, f, x, hops) {
+				found = true
+			}
+		}
+	}
+	return found
 }
